@@ -61,30 +61,39 @@ def emitView (file row type flags : Nat) (old new : Value) : Except Err (List Pr
     let v ← prvValue flags new
     pure [⟨file, row, type, v⟩]
 
+/-- concatenate the results of a list of emit attempts (first error wins) -/
+def collect : List (Except Err (List PrvRec)) → Except Err (List PrvRec)
+  | [] => .ok []
+  | x :: xs => match x with
+    | .error e => .error e
+    | .ok r => match collect xs with
+      | .error e => .error e
+      | .ok rs => .ok (r ++ rs)
+
+/-- records of one thread row -/
+def threadRecords (specs : List ModelSpec) (told t : Thread) : Except Err (List PrvRec) :=
+  let row := t.gindex + 1
+  collect ([emitRaw 0 row prvThreadCpu prvNext t.chCpu,
+            emitRaw 0 row prvThreadTid 0 t.chTid,
+            emitRaw 0 row prvThreadState prvSkipDup t.chState] ++
+    specs.flatMap fun m => (List.range m.nch).map fun i =>
+      emitView 0 row (m.pvtType.getD i 0) (m.prvFlags.getD i 0) (thView told m i) (thView t m i))
+
+/-- records of one CPU row -/
+def cpuRecords (specs : List ModelSpec) (old new : Emu) (cold c : Cpu) : Except Err (List PrvRec) :=
+  let row := c.gindex + 1
+  collect ([emitRaw 1 row prvCpuPid 0 c.chPid,
+            emitRaw 1 row prvCpuTid 0 c.chTid,
+            emitRaw 1 row prvCpuNrun prvZero c.chNrun] ++
+    specs.flatMap fun m => (List.range m.nch).map fun i =>
+      emitView 1 row (m.pvtType.getD i 0) (m.prvFlags.getD i 0) (cpuView old cold m i) (cpuView new c m i))
+
 /-- Records produced when the emulator goes from `old` (flushed) to `new`
     (after the handlers, before the flush). -/
-def records (old new : Emu) : Except Err (List PrvRec) := do
+def records (old new : Emu) : Except Err (List PrvRec) :=
   let specs := allSpecs.filter (fun s => new.enabled.contains s.char)
-  let mut out : List PrvRec := []
-  for t in new.threads do
-    let row := t.gindex + 1
-    out := out ++ (← emitRaw 0 row prvThreadCpu prvNext t.chCpu)
-    out := out ++ (← emitRaw 0 row prvThreadTid 0 t.chTid)
-    out := out ++ (← emitRaw 0 row prvThreadState prvSkipDup t.chState)
-    let told := old.threads.getD t.gindex t
-    for m in specs do
-      for i in List.range m.nch do
-        out := out ++ (← emitView 0 row (m.pvtType.getD i 0) (m.prvFlags.getD i 0) (thView told m i) (thView t m i))
-  for c in new.cpus do
-    let row := c.gindex + 1
-    out := out ++ (← emitRaw 1 row prvCpuPid 0 c.chPid)
-    out := out ++ (← emitRaw 1 row prvCpuTid 0 c.chTid)
-    out := out ++ (← emitRaw 1 row prvCpuNrun prvZero c.chNrun)
-    let cold := old.cpus.getD c.gindex c
-    for m in specs do
-      for i in List.range m.nch do
-        out := out ++ (← emitView 1 row (m.pvtType.getD i 0) (m.prvFlags.getD i 0) (cpuView old cold m i) (cpuView new c m i))
-  pure out
+  collect (new.threads.map (fun t => threadRecords specs (old.threads.getD t.gindex t) t) ++
+           new.cpus.map (fun c => cpuRecords specs old new (old.cpus.getD c.gindex c) c))
 
 /-- One emulation step: handlers, record emission, flush. -/
 def stepEv (e : Emu) (ti m c v : Nat) (payload : List Nat)
